@@ -555,13 +555,15 @@ func execQuery(world []*Obj, op *Op, qs *Queries) Ans {
 			}
 			rp := l.ReferencePoint()
 			a = append(a, b2u(rp.Contained))
-			// encoding a shared loop is a read-only operation too; its bytes include the bound,
-			// which may be looser after Invert, hence behind the mark
-			var eb bytes.Buffer
-			if err := l.Encode(&eb); err != nil {
-				a = append(a, 0xE44)
+			// encoding is a read-only operation too (C13 only, see miscEncode); its bytes include
+			// the bound, which may be looser after Invert, hence behind the mark
+			if miscEncode {
+				var eb bytes.Buffer
+				if err := l.Encode(&eb); err != nil {
+					a = append(a, 0xE44)
+				}
+				a = append(a, orderMark, fnvBytes(eb.Bytes()))
 			}
-			a = append(a, orderMark, fnvBytes(eb.Bytes()))
 			return a
 		case OPolygon:
 			p := o.Poly
@@ -586,11 +588,13 @@ func execQuery(world []*Obj, op *Op, qs *Queries) Ans {
 				e := p.Edge(i)
 				a = append(a, math.Float64bits(e.V0.X)^math.Float64bits(e.V1.Y))
 			}
-			var eb bytes.Buffer
-			if err := p.Encode(&eb); err != nil {
-				a = append(a, 0xE44)
+			if miscEncode {
+				var eb bytes.Buffer
+				if err := p.Encode(&eb); err != nil {
+					a = append(a, 0xE44)
+				}
+				a = append(a, fnvBytes(eb.Bytes()))
 			}
-			a = append(a, fnvBytes(eb.Bytes()))
 			return a
 		default:
 			ix := o.Index
@@ -757,6 +761,14 @@ var indexKinds = []struct{ kind, weight int }{
 	{QFindEdges, 3}, {QDistance, 1}, {QIsDistLess, 1}, {QIsConsDist, 1}, {QWalk, 1}, {QRegionBound, 1},
 	{QBuild, 1}, {QLocate, 1}, {QIsFreshNumEdges, 1}, {QMisc, 1}, {QMember, 1},
 }
+
+// miscEncode: whether the Misc family also encodes the loop / polygon. On in C13 (one more read-only
+// call whose answer must not depend on the history). Off in C14: the property lists the concurrent
+// read-only QUERIES (containment, cell and region relations, distance, crossings); Encode is not
+// among them, and Loop.Encode has a value receiver, i.e. it copies the whole struct, so a correct
+// change that keeps an atomically updated counter in Loop would be reported as a data race between
+// that copy and the atomic add (an independent negative control did exactly that: false alarm).
+var miscEncode = false
 
 // kindMask: bit i set = indexKinds[i] disabled for this run. 0 = everything enabled.
 var kindMask uint32
